@@ -34,6 +34,9 @@ pub fn identifiers(p: &Prog) -> Vec<String> {
                     if let S::Let(p, _) = s {
                         pat_names(p, add)
                     }
+                    if let S::LetRec(n, _) = s {
+                        add(n)
+                    }
                 }
             }
             E::Lambda(ps, _) => ps.iter().for_each(|q| add(q)),
@@ -105,6 +108,7 @@ pub fn map_expr(e: &E, f: &mut dyn FnMut(&E) -> Option<E>) -> E {
                 .iter()
                 .map(|s| match s {
                     S::Let(p, e) => S::Let(p.clone(), *g(e)),
+                    S::LetRec(n, e) => S::LetRec(n.clone(), *g(e)),
                     S::Assign(n, e) => S::Assign(n.clone(), *g(e)),
                     S::Expr(e) => S::Expr(*g(e)),
                 })
@@ -147,6 +151,7 @@ fn ren_expr(e: &E, old: &str, new: &str) -> E {
                 ss.iter()
                     .map(|s| match s {
                         S::Let(p, e) => S::Let(ren_pat(p, old, new), go(e, old, new)),
+                        S::LetRec(n, e) => S::LetRec(ren(n, old, new), go(e, old, new)),
                         // an assignee may be `record.field`: only the variable is a user identifier here
                         S::Assign(n, e) => match n.split_once('.') {
                             Some((h, f)) => S::Assign(format!("{}.{f}", ren(h, old, new)), go(e, old, new)),
@@ -301,6 +306,7 @@ fn map_children(e: &E, f: &mut dyn FnMut(&E, &'static str) -> E) -> E {
                 .iter()
                 .map(|s| match s {
                     S::Let(p, e) => S::Let(p.clone(), f(e, "let_rhs")),
+                    S::LetRec(n, e) => S::LetRec(n.clone(), f(e, "let_rhs")),
                     S::Assign(n, e) => S::Assign(n.clone(), f(e, "assign_rhs")),
                     S::Expr(e) => S::Expr(f(e, "statement")),
                 })
